@@ -105,6 +105,31 @@ def wave8_rules(ctx):
         x = dict(x)
         x["key"] = x["key"].replace("C05.innermost", "C03.scope/innermost")
         obs.append(x)
+    # wave 10: (5b) the slot-value scopes an identifier may resolve to are declared once per slot value name (shared with C05)
+    from share import relabel as _rl
+    from rules.c05 import dedup_key_rule
+    obs += _rl(dedup_key_rule(ctx), "C05.mirror/gen/dedup-key", "C03.scope/slot-dedup-key")
+    # wave 10: (6) a literal beyond the integer range becomes a float, it is never clamped or wrapped
+    pn_ = [f for f in tc.fns if f.name == "parse_number" and f.body]
+    if pn_:
+        clamp = []
+        for g in sir.reach(tc, pn_[0]):
+            if g.body:
+                clamp += ["%s::%s" % (g.name, x["m"]) for x in sir.walk(g.body, into_closures=True) if x.get("k") == "mcall" and re.match(r"(saturating|wrapping|overflowing)_", x["m"])]
+        obs.append(ob("C03.literal/no-clamping", not clamp, ctx.where(pn_[0]), "the number scanner uses no saturating / wrapping arithmetic" if not clamp else "the number scanner clamps or wraps: %s" % clamp[:3],
+                      witness=None if not clamp else "{{ 18446744073709551615 }} is emitted as 9223372036854775807"))
+    # (7) a comment ends at the first `*/` after it starts, a scanner never looks for the last occurrence of its terminator
+    last = []
+    for f in tc.fns:
+        if not f.body or f.module[:1] != ["parse"]:
+            continue
+        for x in sir.walk(f.body, into_closures=True):
+            if x.get("k") == "mcall" and x["m"] in ("rfind", "rsplit_once", "rsplit", "rsplitn", "rmatch_indices", "trim_end_matches") and x["args"]:
+                a0 = sir.strip_ref(x["args"][0])
+                if a0.get("k") == "lit" and a0.get("v") not in ("\n", "\r", "/", "."):
+                    last.append("%s uses `%s(%r)`" % (f.name, x["m"], a0.get("v")))
+    obs.append(ob("C03.scan/first-terminator", not last, "parse/mod.rs", "no scanner of the template parser searches backwards for a terminator" if not last else "; ".join(last[:2]),
+                  witness=None if not last else "{{ a /* x */ + b /* y */ }} is generated as `D.a`"))
     # (5) wave 9: escape sequences of string literals are decoded as ECMAScript decodes them (shared with C12.unescape)
     from share import relabel
     from rules.c12 import check_unescape
